@@ -120,6 +120,8 @@ def run(out, tier, seed):
     out.cov["rule"] = ("exhaustive 'rules': one function per result type of a representative set x every typing rule once (budget 1) - literals, "
                        "every binary and prefix operator, tuples/indexing, lists/spreads, Result via generic helpers, generic Box, field access, "
                        "labelled constructor arguments in any order, lambdas (parameter pinned by every operator on either side), captures, "
+                       "the library module pal used qualified (constructors, labelled constructor, functions, a generic function, patterns), the generic "
+                       "record Fx with a function-typed field (constructed, matched, field called), "
                        "function-typed locals (annotated parameters, let-bound lambdas: called, piped into, passed to apply / map, called under a "
                        "prefix operator in a discarded statement), "
                        "pipelines, case over every pattern rule, let over every value type; every operator as the pin of an unannotated "
@@ -127,7 +129,8 @@ def run(out, tier, seed):
                        "Exhaustive 'sigs': every parameter list up to length 4 over {Int, List(Int), a, b annotated; "
                        "unconstrained; pinned} x results {variable, pair of two variables, list}, each with a caller instantiating it at two "
                        "assignments that give distinct variables distinct types; parameter lists over {Int, String, a} with the last 1..n "
-                       "labelled, called positionally and with the labels in every order. "
+                       "labelled, called positionally and with the labels in every order; parameter lists up to length 3 with function-type "
+                       "annotations that share variables with other parameters and the result. "
                        "Simulation: modules of three functions (up to four parameters of every kind, labelled suffixes, generic results over "
                        "the parameters' variables, annotated or inferred), budget 6 per function, calls to earlier functions instantiated per call "
                        "site (call_gen_back, call_gen_labels, let_call), definition order seeded; hover on every binder, generated function and "
